@@ -49,6 +49,10 @@ type tcase struct {
 	Target  []string `json:"remaining"` // per shard: "src" | "rw" | "ro" | "failput"
 	Handler bool     `json:"fault_handler"`
 	Uni     string   `json:"universe"`
+	// Unreadable lists universe indexes whose blob is removed from the source FSTrees while the metadata
+	// stays (listed by the source, Get fails); IgnoreErrors is Evacuate's flag.
+	Unreadable   []int `json:"unreadable,omitempty"`
+	IgnoreErrors bool  `json:"ignore_errors,omitempty"`
 }
 
 // universe "std": r1 r2 e v t k l  (+ c in "ext")
@@ -82,6 +86,33 @@ func universe(name string) []uobj {
 		u = append(u, uobj{"c", "split-child", c})
 	}
 	return u
+}
+
+// fillers: n regular objects sorted by ID, so that the universe index is the position in the source's
+// listing (the metabase lists a container in object ID order).
+func fillers(n int) []uobj {
+	own := ew.Owner("c19")
+	var u []uobj
+	for i := 0; i < n; i++ {
+		o := ew.Build(ew.ObjSpec{Cnr: cnr, ID: ew.OID(fmt.Sprintf("c19-filler-%d", i)), Owner: own, Payload: []byte(fmt.Sprintf("filler %d", i)), Type: object.TypeRegular})
+		u = append(u, uobj{"", "regular", o})
+	}
+	sort.Slice(u, func(a, b int) bool {
+		x, y := u[a].obj.GetID(), u[b].obj.GetID()
+		return string(x[:]) < string(y[:])
+	})
+	for i := range u {
+		u[i].Name = fmt.Sprintf("f%03d", i)
+	}
+	return u
+}
+
+func universeByName(name string) []uobj {
+	var n int
+	if _, err := fmt.Sscanf(name, "fill%d", &n); err == nil {
+		return fillers(n)
+	}
+	return universe(name)
 }
 
 func addrOf(o *object.Object) oid.Address { return oid.NewAddress(cnr, o.GetID()) }
@@ -179,6 +210,15 @@ func run(tc tcase, u []uobj) (vs []verdict, succeeded bool, nontrivial bool, err
 			}
 		}
 	}
+	for _, i := range tc.Unreadable {
+		for _, s := range tc.Src {
+			if tc.Place[i]&(1<<s) != 0 {
+				if err := w.Shards[s].Stor.Inner().Delete(addrOf(u[i].obj)); err != nil {
+					return nil, false, false, fmt.Errorf("make %s unreadable on shard %d: %w", u[i].Name, s, err)
+				}
+			}
+		}
+	}
 	var remaining []int
 	var ids []common.ID
 	for s := 0; s < tc.Shards; s++ {
@@ -221,7 +261,7 @@ func run(tc tcase, u []uobj) (vs []verdict, succeeded bool, nontrivial bool, err
 			return nil
 		}
 	}
-	moved, eerr := w.Eng.Evacuate(context.Background(), ids, false, handler)
+	moved, eerr := w.Eng.Evacuate(context.Background(), ids, tc.IgnoreErrors, handler)
 	// the sources must be untouched whatever the result
 	for _, s := range tc.Src {
 		after, err := snapshotDir(w.Shards[s].Dir)
@@ -230,6 +270,18 @@ func run(tc tcase, u []uobj) (vs []verdict, succeeded bool, nontrivial bool, err
 		}
 		if after != srcSnap[s] {
 			vs = append(vs, verdict{"source-shard-changed", fmt.Sprintf("directory of evacuated shard %d differs after Evacuate (err=%v)", s, eerr)})
+		}
+	}
+	if len(tc.Unreadable) > 0 {
+		// position of the unreadable objects in the listing is an input dimension; the verdict on the
+		// result of the call itself:
+		switch {
+		case eerr == nil && !tc.IgnoreErrors:
+			vs = append(vs, verdict{"unreadable-source-object:evacuate-succeeded-with-ignoreErrors=false",
+				fmt.Sprintf("source lists %v with lost blobs, Evacuate(ignoreErrors=false) returned nil (moved=%d)", tc.Unreadable, moved)})
+		case eerr != nil && tc.IgnoreErrors:
+			vs = append(vs, verdict{"unreadable-source-object:evacuate-failed-with-ignoreErrors=true",
+				fmt.Sprintf("source lists %v with lost blobs, healthy read-write target, Evacuate(ignoreErrors=true) returned %v", tc.Unreadable, eerr)})
 		}
 	}
 	if eerr != nil {
@@ -267,7 +319,12 @@ func run(tc tcase, u []uobj) (vs []verdict, succeeded bool, nontrivial bool, err
 			case a.get == "ok" && a.bytes != b.bytes:
 				vs = append(vs, verdict{"bytes-differ:" + uo.Kind, ctxs})
 			case a.get != "ok" && !handed[uo.obj.GetID()]:
-				vs = append(vs, verdict{"available-object-lost:" + uo.Kind + ":after=" + a.get, ctxs})
+				fp := "available-object-lost:" + uo.Kind + ":after=" + a.get
+				if len(tc.Unreadable) > 0 {
+					fp += fmt.Sprintf(":source-lists-unreadable-objects:ignoreErrors=%v", tc.IgnoreErrors)
+					ctxs += fmt.Sprintf("; unreadable listed positions %v of %d", tc.Unreadable, len(u))
+				}
+				vs = append(vs, verdict{fp, ctxs})
 			}
 		}
 		if handed[uo.obj.GetID()] {
@@ -453,6 +510,49 @@ func buildCases(thorough bool) []gen {
 		}
 		gs = append(gs, g)
 	}
+	// Part D: the source lists objects whose blob is lost (metadata present, Get fails). Every subset of
+	// listing positions x ignoreErrors; healthy read-write target. Evacuate pages the listing by 100
+	// (constant): thorough adds a two-page source with unreadable objects at the page edges.
+	{
+		n := 4
+		if thorough {
+			n = 6
+		}
+		g := gen{uni: fmt.Sprintf("fill%d", n)}
+		place := make([]int, n)
+		for i := range place {
+			place[i] = 1
+		}
+		enumx.Subsets(n, func(m uint64) bool {
+			for _, ie := range []bool{false, true} {
+				g.cases = append(g.cases, tcase{Shards: 2, Src: []int{0}, Place: place, Target: []string{"src", "rw"}, Uni: g.uni, Unreadable: enumx.Bits(m), IgnoreErrors: ie})
+			}
+			return true
+		})
+		gs = append(gs, g)
+		// two sources: the unreadable objects sit on the first one, the second must be evacuated as well
+		g2 := gen{uni: "fill4"}
+		enumx.Subsets(2, func(m uint64) bool {
+			for _, ie := range []bool{false, true} {
+				g2.cases = append(g2.cases, tcase{Shards: 3, Src: []int{0, 1}, Place: []int{1, 1, 2, 2}, Target: []string{"src", "src", "rw"}, Uni: "fill4", Unreadable: enumx.Bits(m), IgnoreErrors: ie})
+			}
+			return true
+		})
+		gs = append(gs, g2)
+		if thorough {
+			g3 := gen{uni: "fill103"}
+			place := make([]int, 103)
+			for i := range place {
+				place[i] = 1
+			}
+			for _, un := range [][]int{{0}, {50}, {99}, {100}, {102}, {0, 99}, {99, 100}, {98, 99, 100, 101}, {0, 102}} {
+				for _, ie := range []bool{false, true} {
+					g3.cases = append(g3.cases, tcase{Shards: 2, Src: []int{0}, Place: place, Target: []string{"src", "rw"}, Uni: "fill103", Unreadable: un, IgnoreErrors: ie})
+				}
+			}
+			gs = append(gs, g3)
+		}
+	}
 	return gs
 }
 
@@ -463,7 +563,7 @@ func caseKey(tc tcase) string {
 			copies++
 		}
 	}
-	return fmt.Sprintf("%d|%d|%02d|%v|%v|%v", tc.Shards, len(tc.Src), copies, tc.Handler, tc.Target, tc.Place)
+	return fmt.Sprintf("%d|%d|%03d|%02d|%v|%v|%v|%v|%v|%s", tc.Shards, len(tc.Src), copies, len(tc.Unreadable), tc.Handler, tc.Target, tc.Place, tc.Unreadable, tc.IgnoreErrors, tc.Uni)
 }
 
 func main() {
@@ -472,10 +572,16 @@ func main() {
 		r.Fatal("built without the verif overlay")
 	}
 	unis := map[string][]uobj{"std": universe("std"), "ext": universe("ext")}
+	uniOf := func(name string) []uobj {
+		if _, ok := unis[name]; !ok {
+			unis[name] = universeByName(name)
+		}
+		return unis[name]
+	}
 	if r.Replay != "" {
 		var tc tcase
 		r.LoadReplay(&tc)
-		vs, _, _, err := run(tc, unis[tc.Uni])
+		vs, _, _, err := run(tc, uniOf(tc.Uni))
 		if err != nil {
 			r.Fatal("%v", err)
 		}
@@ -495,7 +601,7 @@ func main() {
 	var okRuns, failRuns, popErr int64
 	exhaustive := true
 	for _, g := range buildCases(r.Thorough()) {
-		u := unis[g.uni]
+		u := uniOf(g.uni)
 		enumx.Parallel(len(g.cases), func(i int) {
 			if r.Expired() {
 				mu.Lock()
@@ -559,11 +665,12 @@ func main() {
 	r.Set("evacuations_succeeded", okRuns)
 	r.Set("evacuations_refused_or_failed", failRuns)
 	r.Set("cases_skipped_population_conflict", popErr)
-	r.Rule("case = (number of shards, contents: shard masks of r1 r2 e v t k l [c], evacuated shard list, state of every remaining shard rw|ro|failput, fault handler yes/no); every case runs Evacuate on a fresh real engine; the source directories are compared byte-wise in every case, the availability / bytes / removal / lock oracle is evaluated when Evacuate returned nil, on the engine with the evacuated shards detached. Non-trivial = successful evacuation in which an object available before lived on an evacuated shard; distinct = distinct case")
+	r.Rule("unreadable-object dimension: sources holding 4 (thorough 6; and 103 = two listing pages) regular objects, every subset of listing positions made unreadable (blob removed from the source FSTree, metadata kept) x ignoreErrors false/true, also with a second healthy source; Evacuate(ignoreErrors=false) must fail, Evacuate(ignoreErrors=true) must succeed and every object readable before must be served by the remaining shards. Other parts: case = (number of shards, contents: shard masks of r1 r2 e v t k l [c], evacuated shard list, state of every remaining shard rw|ro|failput, fault handler yes/no); every case runs Evacuate on a fresh real engine; the source directories are compared byte-wise in every case, the availability / bytes / removal / lock oracle is evaluated when Evacuate returned nil, on the engine with the evacuated shards detached. Non-trivial = successful evacuation in which an object available before lived on an evacuated shard; distinct = distinct case")
 	r.Assume(
 		"addresses whose status the shards disagreed about before the evacuation (one shard serves the object, another holds its tombstone) are not judged (C08/C20 matter)",
 		"an object handed to an accepting fault handler counts as taken over by the caller",
-		"sources are healthy read-only shards (no read faults, ignoreErrors=false); no write-cache; no concurrent operations",
+		"apart from the unreadable-object dimension (lost blobs on the sources, ignoreErrors false/true) the sources are healthy read-only shards; no write-cache; no concurrent operations",
+		"Evacuate's listing page size is the constant 100: page-boundary positions are exercised in the thorough tier only (103 objects), quick covers every subset of positions within one page",
 	)
 	r.Exhaustive(exhaustive)
 	r.Finish()
